@@ -33,7 +33,7 @@ ASSUMPTIONS = list(c09.ASSUMPTIONS) + [
 
 
 def shards(tier):
-    reps = 3 if tier == "quick" else 10
+    reps = 6 if tier == "quick" else 20
     return [{"cls": c.name, "rep": r} for c in BUFFERED for r in range(reps)]
 
 
@@ -102,13 +102,19 @@ def judge(program, sc, res):
 
 
 def run_shard(spec, seed, tier, active):
+    conc.MAX_SCHEDULES[0] = 2500 if tier == "quick" else 20000
     ci = CLASSES[spec["cls"]]
     acc = Acc()
-    n = 2 if tier == "quick" else 20
+    n = 2 if tier == "quick" else 10
+
+    first = [True]
 
     def one(data):
         draw = data.draw
         program = draw_program(draw, ci)
+        if first[0]:
+            first[0] = False
+            return      # Hypothesis always starts with the minimal example: spend the budget elsewhere
         T = len(program["threads"])
         extra = []
         for _ in range(draw(st.integers(0, 6))):
